@@ -10,7 +10,7 @@
 From Coq Require Import String.
 From Coq Require Import List Arith Bool NArith ZArith Lia.
 From LMBase Require Import Res ListX IEEE.
-From LMSampler Require Import SamplerModel SamplerF32 SamplerSkelT GenSampler.
+From LMSampler Require Import SamplerModel SamplerF32 SamplerSkelT GenSampler SamplerSkelLemmas.
 Import ListNotations.
 Local Open Scope N_scope.
 
@@ -155,16 +155,6 @@ Definition interp_new_build (loops : list ctor_loop) (nf : new_fields) (c : cfg)
       else Err 99
   | _ => Err 99
   end.
-
-Lemma loop_ext {S : Type} (f g : nat -> S -> res S) :
-  (forall k s, f k s = g k s) -> forall ks s, loop f ks s = loop g ks s.
-Proof.
-  intros H ks. induction ks as [|k r IH]; intros s; [reflexivity|].
-  cbn [loop]. rewrite H. destruct (g k s); cbn [rbind]; auto.
-Qed.
-
-Lemma rbind_Ok_r {A : Type} (x : res A) : (a <- x ;; Ok a) = x.
-Proof. destruct x; reflexivity. Qed.
 
 Definition dummy_loop : ctor_loop := mkCtorLoop false false false false [].
 Definition gen_loop1 : ctor_loop := nth 0 gen_new_loops dummy_loop.
@@ -608,12 +598,6 @@ Section Exec.
     o <- exec_block l (mkMach st None None None false) ;;
     match o with Ret v => Ok v | Cont _ => Err 97 end.
 End Exec.
-
-Lemma sub_usize_add_1 s : sub_usize (s + 1) 1 = Ok s.
-Proof.
-  unfold sub_usize. destruct (N.leb_spec 1 (s + 1)) as [H|H]; [|lia].
-  f_equal. lia.
-Qed.
 
 Ltac red1 :=
   cbn [rbind exec_call exec_block interp_next m_st m_z m_act m_cm m_new with_st need_z fst snd
